@@ -328,8 +328,8 @@ Section Locked.
 
   Definition wire_inv (e : ep) (q : bytes) (wl : list frame_rec) : Prop :=
     Forall (Wire.wf_frame cfg) wl /\
-    (e_lock e = false -> e_writers e = [] /\ e_unlocking e = O) /\
-    (length (e_writers e) + e_unlocking e <= 1)%nat /\
+    (e_lock e = false -> e_writers e = [] /\ e_unlocking e = []) /\
+    (length (e_writers e) + length (e_unlocking e) <= 1)%nat /\
     match e_writers e with
     | [] => q = concat (map fr_bytes wl)
     | [(x, wr, rest)] =>
